@@ -210,6 +210,52 @@ func TestVerifC19Keys(t *testing.T) {
 			if n != 1 {
 				res.Failf(key+"|kernel", v.Inp, "the kernel created %d conn-state entries for one frame of %v -> %v", n, src, dst)
 			}
+		case "portrange":
+			start, end := uint16(v.Inp.Sport), uint16(v.Inp.Dport)
+			enc := bpfPortRange{PortStart: start, PortEnd: end}.Encode()
+			res.Eval(1)
+			key := fmt.Sprintf("c19-portrange:%d-%d", start, end)
+			if !bytes.Equal(enc[:], keBytes(v.Exp.Bytes)) {
+				res.Failf(key, v.Inp, "the match-set value written for the port range %d-%d is % x; struct port_range in the kernel reads % x", start, end, enc[:], keBytes(v.Exp.Bytes))
+			}
+			if ps, pe := ParsePortRange(enc[:]); ps != start || pe != end {
+				res.Failf(key+"|parse", v.Inp, "ParsePortRange(Encode(%d-%d)) = %d-%d", start, end, ps, pe)
+			}
+			// ... and the kernel agrees: a dport(start-end) rule catches exactly the ports of the range
+			if start <= end {
+				text := fmt.Sprintf("routing {\n  dport(%d-%d) -> x\n  fallback: direct\n}\n", start, end)
+				b, err := verifCompileRouting(text, map[string]uint8{"direct": 0, "block": 1, "x": 2}, k.objs, true)
+				if err != nil {
+					res.Note("routing: " + err.Error())
+					break
+				}
+				if _, err = b.KernspaceSnapshot().BuildKernspace(log, k.objs); err != nil {
+					res.Note("BuildKernspace: " + err.Error())
+					break
+				}
+				installed = -1
+				_ = k.SetAllAlive([]uint8{0, 1, 2}, 1)
+				for pi, port := range []int{int(start), int(end), (int(start) + int(end)) / 2, int(start) - 1, int(end) + 1} {
+					if port < 1 || port > 65535 {
+						continue
+					}
+					src := netip.AddrPortFrom(netip.AddrFrom4([4]byte{10, 7, byte(vi), byte(pi)}), uint16(30000+vi))
+					dst := netip.AddrPortFrom(netip.MustParseAddr("203.0.113.9"), uint16(port))
+					k.ForgetFlow(src, dst, unix.IPPROTO_TCP)
+					fr := vFrame{Src: src, Dst: dst, L4: unix.IPPROTO_TCP, TcpFlags: 0x02, SrcMac: [6]byte{2, 0, 0, 0, 1, 1}, DstMac: [6]byte{2, 0, 0, 0, 0, 0xfe}}
+					run, err := vRunProg(k.objs.TproxyLanIngressL2, fr.Bytes(), 0)
+					if err != nil {
+						res.Note("prog run: " + err.Error())
+						break
+					}
+					res.Eval(1)
+					inRange := port >= int(start) && port <= int(end)
+					if (run.Ret == vTcRedirect) != inRange {
+						res.Failf(key+"|kernel", v.Inp, "rule dport(%d-%d) -> x: the kernel program returns %d for destination port %d (in range: %v)", start, end, run.Ret, port, inRange)
+					}
+					k.ForgetFlow(src, dst, unix.IPPROTO_TCP)
+				}
+			}
 		case "domain":
 			a16 := keAddr(v.Inp.Addr).As16()
 			words := common.Ipv6ByteSliceToUint32Array(a16[:])
